@@ -4,6 +4,7 @@ import (
 	"context"
 	"errors"
 	"fmt"
+	"io"
 	"math/rand"
 	"os"
 	"path/filepath"
@@ -504,4 +505,49 @@ func Fanout(calls int) (int, string, error) {
 	}
 	res, _ := classify(e.Run(context.Background(), &task.Call{Task: "default"}))
 	return cl.n, res, nil
+}
+
+// lineReader hands out one line per Read (Logger.Prompt wraps Stdin in a fresh bufio.Reader for
+// every prompt, so a plain reader would lose the later answers in the first one's buffer).
+type lineReader struct{ lines []string }
+
+func (l *lineReader) Read(p []byte) (int, error) {
+	if len(l.lines) == 0 {
+		return 0, io.EOF
+	}
+	n := copy(p, l.lines[0]+"\n")
+	l.lines = l.lines[1:]
+	return n, nil
+}
+
+// PromptList runs (without the scheduler) a task with a list of prompts, answering them from
+// stdin; it returns whether the command ran and the classified result.
+func PromptList(nprompts int, answers []string, asDep bool) (bool, string, error) {
+	dir, err := os.MkdirTemp("", "vh-prompts")
+	if err != nil {
+		return false, "", err
+	}
+	defer os.RemoveAll(dir)
+	var prompts []any
+	for i := 0; i < nprompts; i++ {
+		prompts = append(prompts, fmt.Sprintf("question %d?", i))
+	}
+	tasks := map[string]any{"guarded": map[string]any{"prompt": prompts, "cmds": []any{"echo leaf-ran"}}}
+	root := "guarded"
+	if asDep {
+		tasks["top"] = map[string]any{"deps": []any{"guarded"}, "cmds": []any{"echo leaf-ran"}}
+		root = "top"
+	}
+	y, _ := yaml.Marshal(map[string]any{"version": "3", "silent": true, "tasks": tasks})
+	if err := os.WriteFile(filepath.Join(dir, "Taskfile.yml"), y, 0o644); err != nil {
+		return false, "", err
+	}
+	cl := &countLines{}
+	e := task.NewExecutor(task.WithDir(dir), task.WithStdout(cl), task.WithStderr(devNull{}),
+		task.WithStdin(&lineReader{lines: answers}), task.WithAssumeTerm(true))
+	if err := e.Setup(); err != nil {
+		return false, "", err
+	}
+	res, _ := classify(e.Run(context.Background(), &task.Call{Task: root}))
+	return cl.n > 0, res, nil
 }
